@@ -22,15 +22,21 @@ let crc32_string (s : string) : int =
   Stdlib.String.iter (fun ch -> c := crc_table.((!c lxor Char.code ch) land 0xff) lxor (!c lsr 8)) s;
   !c lxor 0xFFFFFFFF
 
+let big_tokens : (string, BinNums.coq_N list) Hashtbl.t = Hashtbl.create 8
+
 let btok (t : string) : BinNums.coq_N list =
-  let raw = raw_of_token t in
-  if Stdlib.String.length raw <= 4200 then bytes_of_string raw
-  else begin
-    let r = ref [] in
-    for i = Stdlib.String.length raw - 1 downto 0 do r := byte_tab.(Char.code raw.[i]) :: !r done;
-    big_registry := (!r, raw) :: !big_registry;
-    !r
-  end
+  match Hashtbl.find_opt big_tokens t with
+  | Some l -> l
+  | None ->
+    let raw = raw_of_token t in
+    if Stdlib.String.length raw <= 4200 then bytes_of_string raw
+    else begin
+      let r = ref [] in
+      for i = Stdlib.String.length raw - 1 downto 0 do r := byte_tab.(Char.code raw.[i]) :: !r done;
+      big_registry := (!r, raw) :: !big_registry;
+      Hashtbl.replace big_tokens t !r;
+      !r
+    end
 
 let rec longer_than l k = match l with [] -> false | _ :: r -> if k = 0 then true else longer_than r (k - 1)
 
@@ -88,7 +94,7 @@ let rerun_with_big_stack id hdr lines =
   output_string oc "end\n";
   close_out oc;
   Stdlib.flush stdout;
-  let rc = Sys.command (Printf.sprintf "ulimit -s unlimited 2>/dev/null; VERIF_C19_BIGSTACK=1 exec %s C19 %s"
+  let rc = Sys.command (Printf.sprintf "ulimit -s unlimited 2>/dev/null; VERIF_C19_BIGSTACK=1 OCAMLRUNPARAM=s=32M exec %s C19 %s"
                           (Filename.quote Sys.executable_name) (Filename.quote tmp)) in
   Sys.remove tmp;
   if rc <> 0 then failwith (Printf.sprintf "big-stack child exited with %d" rc)
